@@ -1,11 +1,11 @@
 // harness: runs the REAL skycoin code (linked from /repo via the replace directive, built with
 // -tags verif) on generated or replayed operation lines and prints one canonical answer per line.
 //
-//   harness <prop> gen  -seed N -tier quick|thorough   > ops.tsv    (lines: op<TAB>impl-output)
-//   harness <prop> exec < ops.txt                      > ops.tsv    (replay: re-execute given ops)
+//	h_cNN gen  -seed N -tier quick|thorough   > ops.tsv    (lines: op<TAB>impl-output)
+//	h_cNN exec < ops.txt                      > ops.tsv    (replay: re-execute given ops)
 //
-// Each property registers a Prop in its own file (cNN.go).
-package main
+// Each property is its own main package (harness/cNN) calling hlib.Main(&hlib.Prop{...}).
+package hlib
 
 import (
 	"bufio"
@@ -27,10 +27,6 @@ type Prop struct {
 	// Close releases scratch state (temp dirs) at the end.
 	Close func()
 }
-
-var registry = map[string]*Prop{}
-
-func register(name string, p *Prop) { registry[name] = p }
 
 // safeExec converts a Go panic in the implementation into the canonical outcome "panic".
 func safeExec(p *Prop, op string) (out string) {
@@ -55,23 +51,19 @@ func safeExec(p *Prop, op string) (out string) {
 	return p.Exec(op)
 }
 
-func main() {
-	if len(os.Args) < 3 {
-		fmt.Fprintln(os.Stderr, "usage: harness <prop> gen|exec [flags]")
+// Main is the entry point of every per-property harness binary.
+func Main(p *Prop) {
+	if len(os.Args) < 2 {
+		fmt.Fprintln(os.Stderr, "usage: h_cNN gen|exec [flags]")
 		os.Exit(2)
 	}
-	p := registry[strings.ToLower(os.Args[1])]
-	if p == nil {
-		fmt.Fprintln(os.Stderr, "unknown property", os.Args[1])
-		os.Exit(2)
-	}
-	mode := os.Args[2]
+	mode := os.Args[1]
 	log.SetOutput(io.Discard)
 	quietLogging()
 	fs := flag.NewFlagSet("harness", flag.ExitOnError)
 	seed := fs.Uint64("seed", 1, "PRNG seed")
 	tier := fs.String("tier", "quick", "quick|thorough")
-	fs.Parse(os.Args[3:])
+	fs.Parse(os.Args[2:])
 	w := bufio.NewWriterSize(os.Stdout, 1<<20)
 	defer w.Flush()
 	if p.Close != nil {
